@@ -31,6 +31,7 @@ package server
 
 import (
 	"fmt"
+	"os"
 	"strings"
 	"sync"
 	"testing"
@@ -59,6 +60,10 @@ type c04Fo struct {
 	bad  bool
 	seq  int
 	nack int
+	// leader changes started by the harness so far, and the count at each
+	// message's publish (see onAck (1))
+	term   int
+	termOf map[string]int
 }
 
 func (f *c04Fo) fail(fp, what string) {
@@ -66,23 +71,6 @@ func (f *c04Fo) fail(fp, what string) {
 	f.bad = true
 	f.mu.Unlock()
 	f.rep.Violation(fp, what, f.e.witness())
-}
-
-// tagAt reads what replica id stores at offset o ("" if nothing).
-func (f *c04Fo) tagAt(id string, o int64) (string, bool) {
-	n := f.e.c.Nodes[id]
-	if n == nil || !n.IsUp() {
-		return "", false
-	}
-	p := n.Partition(f.e.stream, 0)
-	if p == nil {
-		return "", false
-	}
-	recs, err := vfReadLog(p.log, o, true)
-	if err != nil || len(recs) == 0 || recs[0].Offset != o {
-		return "", true
-	}
-	return c04TagOf(recs[0].Value), true
 }
 
 func (f *c04Fo) onAck(m *c04Msg, a *client.Ack) {
@@ -97,34 +85,75 @@ func (f *c04Fo) onAck(m *c04Msg, a *client.Ack) {
 		f.fail("C04:failover:none-acked", fmt.Sprintf("message %s with policy NONE was acked", m.Tag))
 		return
 	}
-	ln, err := f.e.c.PartitionLeader(f.e.stream, 0, 5*time.Second)
-	if err != nil {
-		return // no agreed leader right now: nothing to compare with
+	ln, lp := c04LeaderNow(f.e.c, f.e.stream)
+	if ln == nil {
+		f.rep.Count("acks_received_while_nobody_leads_under_the_newest_epoch_not_judged", 1)
+		return // nothing to compare with right now (never waited for: the state is read at receipt)
 	}
-	lp := ln.Partition(f.e.stream, 0)
-	if got, ok := f.tagAt(ln.ID, a.Offset); ok && got != m.Tag {
-		f.fail("C04:failover:ack-names-offset-holding-another-message:"+f.kind, fmt.Sprintf("positive %s ack for %s names offset %d, but leader %s stores %q there", m.Policy, m.Tag, a.Offset, ln.ID, got))
-		return
+	// (1) the acked offset holds the message on the current leader.  An ALL ack
+	// means committed, so this must hold on every later leader too; a LEADER
+	// ack only speaks about the leader that sent it and is compared only if no
+	// leader change has been started since the publish (checked before and
+	// after the read).
+	if m.Policy == client.AckPolicy_ALL || f.sameTerm(m.Tag) {
+		v, d := c04MemberHolds(lp, m.Tag, a.Offset)
+		bad := v == "other" || v == "hole" || (v == "behind" && m.Policy == client.AckPolicy_ALL)
+		if bad && (m.Policy == client.AckPolicy_ALL || f.sameTerm(m.Tag)) {
+			f.fail("C04:failover:ack-names-offset-holding-another-message:"+f.kind, fmt.Sprintf("positive %s ack for %s names offset %d, but leader %s %s", m.Policy, m.Tag, a.Offset, ln.ID, d))
+			return
+		}
 	}
 	if m.Policy != client.AckPolicy_ALL {
 		return
 	}
-	for _, id := range lp.GetISR() {
+	// (2) every running member of the leader's ISR whose log covers the offset
+	// holds the message there; a member whose log END is still below the offset
+	// is decisive only while it is parked at the fetch gate (see
+	// c04_content_test.go: a free-running member may have been admitted
+	// between the sending and the receipt of the ack).
+	isr := lp.GetISR()
+	for _, id := range isr {
 		if id == ln.ID {
 			continue
 		}
-		got, ok := f.tagAt(id, a.Offset)
-		if !ok {
+		n := f.e.c.Nodes[id]
+		if n == nil || !n.IsUp() {
 			continue // not running: cannot be read
 		}
-		if got != m.Tag {
-			f.fail("C04:failover:all-acked-before-isr-stored:"+f.kind, fmt.Sprintf("ALL-policy ack for %s at offset %d received while replica %s, which leader %s counts as in sync (ISR %v), stores %q there", m.Tag, a.Offset, id, ln.ID, lp.GetISR(), got))
+		frozen := f.frozen(id)
+		v, d := c04MemberHolds(n.Partition(f.e.stream, 0), m.Tag, a.Offset)
+		f.e.logf("ack %s offset %d: ISR member %s of leader %s: %s %s (parked=%v)", m.Tag, a.Offset, id, ln.ID, v, d, frozen)
+		if v == "other" || v == "hole" || (v == "behind" && frozen && f.frozen(id)) {
+			f.fail("C04:failover:all-acked-before-isr-stored:"+f.kind, fmt.Sprintf("ALL-policy ack for %s at offset %d received while replica %s, which leader %s counts as in sync (ISR %v), %s", m.Tag, a.Offset, id, ln.ID, isr, d))
 			return
+		}
+		if v == "behind" {
+			f.rep.Count("free_running_isr_member_behind_at_ack_receipt_not_judged", 1)
 		}
 	}
 	if hw := lp.log.HighWatermark(); hw < a.Offset {
 		f.fail("C04:failover:all-acked-before-commit:"+f.kind, fmt.Sprintf("ALL-policy ack for %s at offset %d received while the leader HW is %d", m.Tag, a.Offset, hw))
 	}
+}
+
+// frozen: the replica's fetch loop is parked at the follower.beforeFetch gate.
+func (f *c04Fo) frozen(id string) bool {
+	f.e.mu.Lock()
+	defer f.e.mu.Unlock()
+	return f.e.gates[id] != nil && f.e.parked[id] > 0
+}
+
+// newTerm is called before the harness starts a leader change.
+func (f *c04Fo) newTerm() {
+	f.mu.Lock()
+	f.term++
+	f.mu.Unlock()
+}
+
+func (f *c04Fo) sameTerm(tag string) bool {
+	f.mu.Lock()
+	defer f.mu.Unlock()
+	return f.termOf[tag] == f.term
 }
 
 func (f *c04Fo) publish(prefix string, n int, pol client.AckPolicy) []*c04Msg {
@@ -133,6 +162,12 @@ func (f *c04Fo) publish(prefix string, n int, pol client.AckPolicy) []*c04Msg {
 	for i := 0; i < n; i++ {
 		f.seq++
 		m := &c04Msg{Tag: fmt.Sprintf("%s%s-%d-m%03d", prefix, f.kind, f.e.seed%1000, f.seq), Policy: pol, Expect: -1}
+		f.mu.Lock()
+		if f.termOf == nil {
+			f.termOf = map[string]int{}
+		}
+		f.termOf[m.Tag] = f.term
+		f.mu.Unlock()
 		f.pub.send(f.e.stream, f.e.subject, m, c04Value(m.Tag, 40))
 		out = append(out, m)
 	}
@@ -191,7 +226,12 @@ func c04FoA(f *c04Fo, rng *kit.RNG) bool {
 		return false
 	}
 	e.pauseReplication(l.ID)
+	f.newTerm()
 	if !e.changeLeader(x) || !e.waitLeads(x) {
+		return false
+	}
+	if xp := e.c.Nodes[x].Partition(e.stream, 0); xp == nil || xp.ISRSize() != 3 {
+		e.inconclusive("ISR shrank before the leader change was committed")
 		return false
 	}
 	e.release(x)
@@ -253,7 +293,12 @@ func c04FoB(f *c04Fo, rng *kit.RNG) bool {
 	}
 	pendEnd := lp.log.NewestOffset()
 	// leadership moves to x, which lacks the pending messages
+	f.newTerm()
 	if !e.changeLeader(x) || !e.waitLeads(x) || !e.waitFollows(l.ID, x) {
+		return false
+	}
+	if xp := e.c.Nodes[x].Partition(e.stream, 0); xp == nil || xp.ISRSize() != 3 {
+		e.inconclusive("ISR shrank before the leader change was committed")
 		return false
 	}
 	e.release(x)
@@ -265,6 +310,7 @@ func c04FoB(f *c04Fo, rng *kit.RNG) bool {
 	}
 	e.settle("c04b-second-leader")
 	// ... and back
+	f.newTerm()
 	if !e.changeLeader(l.ID) || !e.waitLeads(l.ID) {
 		return false
 	}
@@ -319,6 +365,18 @@ func TestVerifC04Failover(t *testing.T) {
 		} else {
 			reached = c04FoB(f, rng)
 		}
+		// quiescence (c04_content_test.go): every member of the final ISR holds
+		// every ALL-acked message at its acked offset
+		e.mu.Lock()
+		finished, lossy := !e.inconc, len(e.fallbackLoss) > 0
+		e.mu.Unlock()
+		if finished && !lossy {
+			if qn, isr, ok := c04Quiescent(e.c, e.stream, 0, 30*time.Second); ok {
+				rep.Count("quiescent_member_ack_pairs_compared", int64(c04JudgeQuiescent(e.c, e.stream, qn, isr, c04PositiveAllAcks(pub), f.fail)))
+			} else {
+				rep.Count("quiescence_not_reached", 1)
+			}
+		}
 		rep.Eval()
 		e.mu.Lock()
 		complete := !e.inconc
@@ -331,6 +389,11 @@ func TestVerifC04Failover(t *testing.T) {
 			rep.Nontrivial(fmt.Sprintf("%s/%d", kind, seed))
 		}
 		rep.Sample(map[string]any{"kind": kind, "seed": seed, "steps": strings.Join(steps, " > ")})
+		if os.Getenv("VERIF_C04_TRACE") != "" {
+			e.mu.Lock()
+			fmt.Fprintf(os.Stderr, "---- trace of failover scenario %s seed %d\n%s\n----\n", kind, seed, strings.Join(e.trace, "\n"))
+			e.mu.Unlock()
+		}
 		pub.close()
 		e.close()
 	}
